@@ -11,6 +11,14 @@ ABI_TYPES = ["uint64", "string", "bool", "byte[2]", "(uint8,string)", "address",
 KNOWN_KEY = "O14.2:more-than-15-plain-args-not-packed"
 
 
+# the outer transaction's own foreign arrays (reference values forwarded to an inner call index into these)
+OUTER_SENDER = bytes([0x11]) * 32
+OUTER_ACCTS = [bytes([0x21]) * 32, bytes([0x22]) * 32, bytes([0x23]) * 32]
+OUTER_ASSETS = [701, 702, 703]
+OUTER_APPS = [801, 802]
+OUTER_APP_ID = 77
+
+
 def case(job):
     seed, version, big = job
     from vf.core import use_repo
@@ -53,18 +61,43 @@ def case(job):
                 args.append({pt.TxnField.type_enum: te, pt.TxnField.fee: pt.Int(amt)})
                 exp_txns.append(({"pay": 1, "axfer": 4, "txn": 1}[t], amt))
             elif t == "account":
-                a = bytes([0x50 + len(exp_accts)]) * 32
-                args.append(pt.Bytes(a))
+                if r.random() < 0.4:
+                    # a reference VALUE (what a routed method receives for an `account` parameter) forwarded to the inner call:
+                    # it denotes the account at its index in the OUTER transaction's Accounts
+                    k = r.randrange(0, len(OUTER_ACCTS) + 1)
+                    ref = abi.Account()
+                    stmts.append(ref.decode(pt.Bytes(bytes([k]))))
+                    args.append(ref)
+                    a = OUTER_SENDER if k == 0 else OUTER_ACCTS[k - 1]
+                else:
+                    a = bytes([0x50 + len(exp_accts)]) * 32
+                    args.append(pt.Bytes(a))
                 exp_accts.append(a)
                 exp_plain.append(bytes([len(exp_accts)]))
             elif t == "application":
-                args.append(pt.Int(3000 + len(exp_apps)))
-                exp_apps.append(3000 + len(exp_apps))
+                if r.random() < 0.4:
+                    k = r.randrange(0, len(OUTER_APPS) + 1)
+                    ref = abi.Application()
+                    stmts.append(ref.decode(pt.Bytes(bytes([k]))))
+                    args.append(ref)
+                    v = OUTER_APP_ID if k == 0 else OUTER_APPS[k - 1]
+                else:
+                    v = 3000 + len(exp_apps)
+                    args.append(pt.Int(v))
+                exp_apps.append(v)
                 exp_plain.append(bytes([len(exp_apps)]))
             else:
                 exp_plain.append(bytes([len(exp_assets)]))
-                args.append(pt.Int(4000 + len(exp_assets)))
-                exp_assets.append(4000 + len(exp_assets))
+                if r.random() < 0.4:
+                    k = r.randrange(0, len(OUTER_ASSETS))
+                    ref = abi.Asset()
+                    stmts.append(ref.decode(pt.Bytes(bytes([k]))))
+                    args.append(ref)
+                    v = OUTER_ASSETS[k]
+                else:
+                    v = 4000 + len(exp_assets)
+                    args.append(pt.Int(v))
+                exp_assets.append(v)
         extra = {pt.TxnField.fee: pt.Int(0)}
         x_accts, x_apps, x_assets = [], [], []
         if seed % 2 == 1:
@@ -83,7 +116,8 @@ def case(job):
                       pt.InnerTxnBuilder.MethodCall(app_id=pt.Int(5), method_signature=sig, args=args, extra_fields=extra),
                       pt.InnerTxnBuilder.Submit(), pt.Approve())
         teal = pt.compileTeal(prog, pt.Mode.Application, version=version)
-        res = avm.run(teal, avm.Ctx())
+        res = avm.run(teal, avm.Ctx(txn={"Sender": OUTER_SENDER, "Accounts": list(OUTER_ACCTS), "Assets": list(OUTER_ASSETS), "Applications": list(OUTER_APPS),
+                                         "ApplicationID": OUTER_APP_ID}))
         out["ran"] += 1
         if res.verdict != "approve" or len(res.inner) != 1:
             out["problems"].append(f"{sig}: program did not submit one inner group: {res.verdict} {res.detail}")
